@@ -219,8 +219,8 @@ pub fn streams() -> Vec<Box<dyn AnyStream>> {
         }),
         Box::new(Stream::<Case> {
             name: "mutations",
-            quick: 30_000,
-            thorough: 1_000_000,
+            quick: 60_000,
+            thorough: 5_000_000,
             source: Source::Gen(Box::new(strategy)),
             check: Box::new(check),
         }),
